@@ -201,10 +201,12 @@ def reuse_refresh(ctx):
                 ctx.prove(obj is first[p] and second.get(p) is obj, "same-object-while-listed", detail=f"pid {p}")
 
 
-@harness("C04.partial", quick=[dict(consume=c) for c in (1, 2)], thorough=[dict(consume=c) for c in (0, 1, 2, 3)])
-def partial(ctx, consume):
+@harness("C04.partial", quick=[dict(consume=c, finish=f) for c in (1, 2) for f in ("exhaust", "close")], thorough=[dict(consume=c, finish=f) for c in (0, 1, 2, 3) for f in ("exhaust", "close")])
+def partial(ctx, consume, finish="exhaust"):
     """a partially consumed iterator with the table changing between next() calls: yields ascending PIDs that were listed
-    when it started, silently skipping those that vanished"""
+    when it started, silently skipping those that vanished.  While the iterator is suspended is_running() may be asked of the
+    objects it has handed out; finish="close": the iterator is abandoned (closed) instead of being consumed to the end.  Two more
+    passes follow: the very same object for a PID that stayed listed, a fresh one where is_running() found the PID recycled."""
     k = simk.Kernel(ctx)
     simk.system_files(k)
     t = Table(ctx, k)
@@ -212,20 +214,46 @@ def partial(ctx, consume):
     with k.installed():
         started = t.listed()
         it = psutil.process_iter()
-        got = []
+        objs = []
         for _ in range(consume):
             try:
-                got.append(next(it).pid)
+                objs.append(next(it))
             except StopIteration:
                 break
+        gen0 = dict(t.gen)
         t.change("b")
         if consume == 0:
             started = t.listed()        # a generator reads the table at its first next(), not when it is created
-        rest = ctx.guard("partial-iteration-skips-vanished", lambda: [x.pid for x in it])
-        got += rest
+        found = {}
+        if objs and ctx.flag("is_running_while_suspended"):
+            for o in objs:
+                found[o.pid] = o.is_running()
+                ctx.prove(found[o.pid] == (t.present[o.pid] and t.gen[o.pid] == gen0[o.pid]), "is_running", detail=f"pid {o.pid}")
+        n_first = len(objs)
+        if finish == "close":
+            it.close()
+        else:
+            objs += ctx.guard("partial-iteration-skips-vanished", lambda: list(it))
+        got = [x.pid for x in objs]
+        listed = t.listed()
+        flagged = sorted(p_ for p_, r in found.items() if not r and p_ in listed)
+        second = ctx.guard("ascending-one-per-listed-pid", lambda: list(psutil.process_iter()))
+        third = ctx.guard("ascending-one-per-listed-pid", lambda: list(psutil.process_iter()))
+        alive3 = {x.pid: x.is_running() for x in third}
     ctx.prove(got == sorted(got) and len(got) == len(set(got)) and set(got) <= set(started), "partial-iteration-skips-vanished", detail=f"{got} started={started}")
-    still = [p for p in started if t.present[p]]
-    ctx.prove(set(still) <= set(got), "partial-iteration-skips-vanished", detail=f"{got} must include {still}")
+    if finish == "exhaust":
+        still = [p for p in started if t.present[p]]
+        ctx.prove(set(still) <= set(got), "partial-iteration-skips-vanished", detail=f"{got} must include {still}")
+    _check_listing(ctx, [x.pid for x in second], listed, flagged)
+    ctx.prove([x.pid for x in third] == listed, "ascending-one-per-listed-pid", detail=f"third pass {[x.pid for x in third]} vs {listed}")
+    by2, by3 = {x.pid: x for x in second}, {x.pid: x for x in third}
+    for o in objs:
+        if o.pid not in by3:
+            continue
+        if o.pid in flagged:
+            ctx.prove(by3[o.pid] is not o and alive3[o.pid], "fresh-object-after-detected-reuse", detail=f"pid {o.pid} after a pass that was {finish}d (consumed {n_first})")
+        else:
+            ctx.prove(by3[o.pid] is o and by2.get(o.pid) is o, "same-object-while-listed", detail=f"pid {o.pid} after a pass that was {finish}d (consumed {n_first})")
 
 
 @harness("C04.torn_down", quick=[dict(attrs=a) for a in (None, ["name", "status"])])
